@@ -253,4 +253,52 @@ def capsuleCapsule3 (ulps : K → K → Bool) (pos12 : Iso3 K) (a1 b1 : V3 K) (r
     ⟨setFirst c m.points, n1, n2⟩
   else m.clear
 
+/-! ## `PolygonalFeature::contacts` for two edges (`polygonal_feature3d.rs`, `contacts_edge_edge`)
+
+The contact generation of `contact_manifold_pfm_pfm` when both support features are 2-vertex edges (capsule / segment,
+the sides of cylinders and cones): the edges are projected on the plane orthogonal to `sep_axis1`; if the projected
+directions are not within 22.5° (`dot ≥ COS_FRAC_PI_8`) ONE contact at the closest points of the projected segments,
+otherwise (or when a projection degenerates) the TWO contacts of `clip_segment_segment`.  The basis function and the
+`ulps_eq` predicate are parameters. -/
+
+/-- `Vector3::orthonormal_basis` (`utils/wops.rs`, the branchless Pixar construction) -/
+def orthonormalBasis3 [HasCopysign K] (v : V3 K) : V3 K × V3 K :=
+  let sign := HasCopysign.copysign (1 : K) v.z
+  let a := -1 / (sign + v.z)
+  let b := v.x * v.y * a
+  (⟨1 + sign * v.x * v.x * a, sign * b, -sign * v.x⟩, ⟨b, sign + v.y * v.y * a, -v.y⟩)
+
+/-- nalgebra `try_normalize(min_norm)` on a 2-vector: `n = norm(); if n <= min_norm { None } else { Some(v / n) }` -/
+def tryNormalizeEps2 (v : V2 K) (minNorm : K) : Option (V2 K) :=
+  let n := v.norm
+  if n ≤ minNorm then none else some (v.sdiv n)
+
+/-- the two clipping contacts of the conformal branch -/
+def edgeEdgeClip3 (pos12 : Iso3 K) (e1a e1b v2a v2b sep : V3 K) (flipped : Bool) : List (Contact3 K) :=
+  match clipSegSeg3 e1a e1b v2a v2b with
+  | some (ca, cb) =>
+    [Contact3.flipped ca.p1 (pos12.invAct ca.p2) ((ca.p2.sub ca.p1).dot sep) flipped,
+     Contact3.flipped cb.p1 (pos12.invAct cb.p2) ((cb.p2.sub cb.p1).dot sep) flipped]
+  | none => []
+
+/-- `PolygonalFeature::contacts_edge_edge(pos12, face1, sep_axis1, face2, manifold, flipped)`: the contacts pushed -/
+def edgeEdge3 (basis : V3 K → V3 K × V3 K) (ulps : K → K → Bool) (pos12 : Iso3 K) (e1a e1b e2a e2b sep : V3 K)
+    (flipped : Bool) : List (Contact3 K) :=
+  let bs := basis sep
+  let pe1a : V2 K := ⟨e1a.dot bs.1, e1a.dot bs.2⟩
+  let pe1b : V2 K := ⟨e1b.dot bs.1, e1b.dot bs.2⟩
+  let v2a := pos12.act e2a
+  let v2b := pos12.act e2b
+  let pe2a : V2 K := ⟨v2a.dot bs.1, v2a.dot bs.2⟩
+  let pe2b : V2 K := ⟨v2b.dot bs.1, v2b.dot bs.2⟩
+  match tryNormalizeEps2 (pe1b.sub pe1a) epsilon, tryNormalizeEps2 (pe2b.sub pe2a) epsilon with
+  | some t1, some t2 =>
+    if cosFracPi8 ≤ t1.dot t2 then edgeEdgeClip3 pos12 e1a e1b v2a v2b sep flipped
+    else
+      let st := segSegParams2 ulps pe1a pe1b pe2a pe2b
+      let lp1 := baryPoint3 e1a e1b (bcoords st.1)
+      let lp21 := baryPoint3 v2a v2b (bcoords st.2)
+      [Contact3.flipped lp1 (pos12.invAct lp21) ((lp21.sub lp1).dot sep) flipped]
+  | _, _ => edgeEdgeClip3 pos12 e1a e1b v2a v2b sep flipped
+
 end C14
